@@ -71,6 +71,7 @@ func annotationKeyOf(p *Prog, v ssa.Value, depth int) []string {
 func runC19(c *Ctx) {
 	runC19Received(c)
 	runC19EnvUpsert(c)
+	runC19ContainerRef(c)
 	runC19ConfigMapName(c)
 	p, fx := c.P, c.Fx
 	// ---- O1: annotation keys agree
@@ -542,4 +543,48 @@ func valueSources(v ssa.Value, depth int) []ssa.Value {
 		}
 	}
 	return out
+}
+
+// C19-O7 (PROV): the fraction container that admission mutates is the pod's own container. GetFractionContainerRef
+// hands out a *v1.Container through which the mutator adds the GPU env vars and the config-map source; the pointer
+// must address an element of pod.Spec.Containers / InitContainers. A pointer to a copy (the range variable of the
+// search loop) type-checks, carries the right name and index — and every mutation made through it is lost, so the
+// selected container starts without its GPU share while scheduler and binder proceed as if it had one.
+func runC19ContainerRef(c *Ctx) {
+	p := c.P
+	n := 0
+	for _, fn := range p.FuncsIn("pkg/binder/common") {
+		if isTestdataOrMock(fn) {
+			continue
+		}
+		for _, in := range instrsIn(fn, func(in ssa.Instruction) bool {
+			st, ok := in.(*ssa.Store)
+			if !ok {
+				return false
+			}
+			fa, ok := st.Addr.(*ssa.FieldAddr)
+			if !ok {
+				return false
+			}
+			pt, ok := fa.X.Type().Underlying().(*types.Pointer)
+			if !ok || !strings.HasSuffix(typeKey(pt.Elem()), "PodContainerRef") {
+				return false
+			}
+			stt, ok := pt.Elem().Underlying().(*types.Struct)
+			return ok && stt.Field(fa.Field).Name() == "Container"
+		}) {
+			n++
+			v := in.(*ssa.Store).Val
+			ia, isIdx := v.(*ssa.IndexAddr)
+			ok := false
+			desc := trunc(termOf(v).String(), 100)
+			if isIdx {
+				lf := termOf(ia.X).lastField()
+				ok = lf == "Containers" || lf == "InitContainers"
+			}
+			c.Check(ok, "O7", "PROV", funcKey(fn)+": PodContainerRef.Container addresses an element of the pod's container list", instrPos(in), desc,
+				"the container reference handed to the admission mutator does not point into pod.Spec.Containers / InitContainers ("+desc+"): the env vars and config-map source are added to a copy and never reach the pod")
+		}
+	}
+	c.Floor("O7", "PROV container references", n, 2)
 }
